@@ -339,6 +339,8 @@ class RecModel(nn.Module):
         self.before = None  # callable(k, x)
         self.after = None   # callable(k, x, y)
         self.keep_graph = False
+        self.events = None  # optional global event log (C15)
+        self.events_rng = False
         self.k = 0
 
     def reset(self):
@@ -350,6 +352,9 @@ class RecModel(nn.Module):
         self.k += 1
         if self.before is not None:
             self.before(k, x)
+        if self.events is not None:
+            self.events.add(ev="forward", training=self.training, grad=torch.is_grad_enabled(),
+                            n=int(x.shape[0]), rng=torch.get_rng_state() if self.events_rng else None)
         y = self.inner(x)
         if self.recording:
             self.log.append({
